@@ -1,0 +1,14 @@
+//go:build verif
+
+package sfnt
+
+import (
+	"seehuhn.de/go/sfnt/cmap"
+	"seehuhn.de/go/sfnt/opentype/gtab"
+)
+
+// VerifC15StandardLigatures exposes standardLigatures (ligatures.go) to the
+// verification harness.
+func VerifC15StandardLigatures(cm cmap.Subtable) *gtab.Info {
+	return standardLigatures(cm)
+}
